@@ -350,6 +350,11 @@ var boundaryTemplates = []struct {
 	{"a = make([]chan int64, 1)\na[0] = make(chan int64, 3)\nb = make(chan int64, 3)\na[0] <- 1\nb <- 10\nb <- 20\nclose(a[0])\nclose(b)\nn = 0\nfor v in a[0] {\nn += v\na[0] = b\n}\nprobe(n)", []string{"(i 1)"}, ""},
 	{"s = make(struct { C chan int64 })\ns.C = make(chan int64, 3)\nb = make(chan int64, 3)\ns.C <- 1\ns.C <- 2\nb <- 10\nclose(s.C)\nclose(b)\nn = 0\nfor v in s.C {\nn += v\ns.C = b\n}\nprobe(n)", []string{"(i 3)"}, ""},
 	{"c = make(chan int64, 3)\nb = make(chan int64, 3)\nc <- 1\nc <- 2\nb <- 10\nclose(c)\nclose(b)\nn = 0\nfor v in c {\nn += v\nc = b\n}\nprobe(n)", []string{"(i 3)"}, ""},
+	// a loop that never started (its init statement failed, the error was caught) leaves the loops around and after it as they were
+	{"n = 0\nfor i = 0; i < 4; i++ {\ntry {\nfor j = missing(); j < 2; j++ {\n}\n} catch e {\n}\nif i == 1 {\nbreak\n}\nn++\n}\nprobe(n)", []string{"(i 1)"}, ""},
+	{"n = 0\nfor x in [1, 2, 3] {\ntry {\nfor j = 1 / nil.a; j < 2; j++ {\n}\n} catch e {\n}\nif x == 2 {\ncontinue\n}\nn += x\n}\nprobe(n)", []string{"(i 4)"}, ""},
+	{"func f() {\ntry {\nfor k = missing(); ; {\n}\n} catch e {\n}\nfor {\nbreak\n}\nreturn 7\n}\nprobe(f())", []string{"(i 7)"}, ""},
+	{"n = 0\ntry {\nfor v in missing() {\n}\n} catch e {\n}\ntry {\nfor missing() {\n}\n} catch e {\n}\nfor {\nn++\nif n < 3 {\ncontinue\n}\nbreak\n}\nprobe(n)", []string{"(i 3)"}, ""},
 	{"r = 0\nfor i = 0; i < 3; i++ {\nr = func() {\nfor {\nbreak\n}\nreturn i\n}()\nprobe(r)\n}", []string{"(i 0)", "(i 1)", "(i 2)"}, ""},
 	{"probe(func() {\nmodule a {\nreturn 10\n}\nreturn 20\n}())", []string{"(i 10)"}, ""},
 	{"probe(func() {\nmodule a {\nif true {\nfor {\nreturn 1, 2\n}\n}\n}\n}())", []string{"(l (i 1) (i 2))"}, ""},
